@@ -130,7 +130,10 @@ class ControlFlowTransformer(converter.Base):
     return assignments
 
   def _get_block_basic_vars(self, modified, live_in, live_out):
-    nonlocals = self.state[_Function].scope.nonlocals
+    fn_scope = self.state[_Function].scope
+    # Globals behave like nonlocals here: a write inside the block must reach
+    # the module variable even if the function never reads it again.
+    nonlocals = fn_scope.nonlocals | fn_scope.globals
     basic_scope_vars = []
     for s in modified:
       if s.is_composite():
